@@ -1,6 +1,9 @@
 package quic
 
-import "time"
+import (
+	"sort"
+	"time"
+)
 
 // Export shim for the C16 E2 harness (package quic_test): read-only views of the routing
 // table and the reset-token table of a Transport, and of the probe timeout of a connection.
@@ -11,8 +14,22 @@ import "time"
 func VerifC16Lookup(t *Transport, id ConnectionID) *Conn {
 	t.mutex.Lock()
 	defer t.mutex.Unlock()
-	c, _ := t.handlers[id].(*Conn)
-	return c
+	return verifC16Live(t.handlers[id])
+}
+
+// verifC16Live unwraps a routing entry: the server registers its connections as
+// *wrappedConn (original Destination Connection ID, first own ID), the connection ID
+// generator registers the *Conn itself.
+func verifC16Live(h packetHandler) *Conn {
+	switch c := h.(type) {
+	case *Conn:
+		return c
+	case *wrappedConn:
+		if c != nil {
+			return c.Conn
+		}
+	}
+	return nil
 }
 
 // VerifC16Conns returns the distinct live connections of the routing table (order of first
@@ -23,7 +40,7 @@ func VerifC16Conns(t *Transport) []*Conn {
 	seen := map[*Conn]bool{}
 	var out []*Conn
 	for _, h := range t.handlers {
-		if c, ok := h.(*Conn); ok && !seen[c] {
+		if c := verifC16Live(h); c != nil && !seen[c] {
 			seen[c] = true
 			out = append(out, c)
 		}
@@ -42,3 +59,17 @@ func VerifC16Tables(t *Transport) (ids, tokens int) {
 // VerifC16PTO is the connection's current probe timeout without max_ack_delay: the unit of
 // the retirement delay of connection IDs.
 func VerifC16PTO(c *Conn) time.Duration { return c.rttStats.PTO(false) }
+
+// VerifC16IDsOf lists (sorted, hex) the connection IDs that t routes to c.
+func VerifC16IDsOf(t *Transport, c *Conn) []string {
+	t.mutex.Lock()
+	defer t.mutex.Unlock()
+	var out []string
+	for id, h := range t.handlers {
+		if hc := verifC16Live(h); hc != nil && hc == c {
+			out = append(out, id.String())
+		}
+	}
+	sort.Strings(out)
+	return out
+}
